@@ -84,6 +84,7 @@ package skiplist
 
 //@ func (*Map).IteratorBetween
 //@   props C16
+//@   bounded skiplist_insert Map.Insert: all insertion orders of <= 6 keys, two comparators, probes in [-1, 2n+1], all iterator bounds
 //@   replay skiplist_insert
 //@   requires [shape] skShape(list) && skRI1(list) && skRI2(list) && cmpOK(list.comp)
 //@   ensures [inverted-bounds-rejected] cmpv(list.comp, val(keyLower), val(keyHigher)) > 0 ==> r1 != nil && r0 == nil
